@@ -89,7 +89,7 @@ def gen_programs(ctx):
     progs = []
     for i in range(ctx.n(120, 1500)):
         hz = rng.choice(tygen.HAZARDS) if rng.random() < 0.4 else None
-        straight = rng.random() < 0.35
+        straight = rng.random() < 0.35 and hz != "builtin-float-result"      # builtin calls are outside the expression model: no store ties
         g = tygen.TyGen(rng, hazard=hz, straight=straight)
         progs.append((g.program(), hz, straight))
     # exhaustive: every order of up to three differently-typed assignments to one name, at top level / in a branch / in a loop
@@ -184,7 +184,7 @@ def run(ctx: Ctx) -> int:
     for k, ((p, hz, straight), src, (cpp, exc)) in enumerate(zip(progs, srcs, outs)):
         mdecl, mrun = fields(model[2 * k]), fields(model[2 * k + 1])
         replay = {"script": src, "hazard": hz}
-        stable = mdecl.get("stable") == "T"
+        stable = mdecl.get("stable") == "T" and hz != "builtin-float-result"     # (the model sees the call as an int placeholder)
         ctx.count(f"program:{'stable' if stable else 'unstable'}:{(hz or 'none').split(':')[0]}")
         ctx.case(src, nontrivial=True, sample={"script": src, "model": model[2 * k][:200]} if len(ctx.cov["samples"]) < 2 else None)
         if hz is None and not stable:
